@@ -4,6 +4,7 @@ import (
 	"fmt"
 	"go/token"
 	"go/types"
+	"strings"
 
 	"golang.org/x/tools/go/ssa"
 )
@@ -350,4 +351,215 @@ func ErrorsOnlyFromKindsAlso(c *Check, id, rule string, fn *ssa.Function, classi
 		}
 		c.Report(ok, id, rule, fn, r.Pos(), fmt.Sprintf("%s return#%d", FnName(fn), i), why, wit...)
 	}
+}
+
+// LostReceiverStores decides, for the methods of the module packages rels, that an assignment to a field of the
+// receiver is not made on a by-value copy that nobody looks at afterwards (setDefaults / option methods that silently
+// stopped working because the receiver lost its `*`): a store to a field of a value receiver must be followed by a
+// read of that receiver (a load of the field, of the whole value, or the value escaping to a call / closure / return).
+func LostReceiverStores(c *Check, id string, rels ...string) {
+	n := 0
+	for _, rel := range rels {
+		for _, fn := range c.P.SrcFuncsRaw(rel) {
+			recv := fn.Signature.Recv()
+			if recv == nil || fn.Parent() != nil || len(fn.Params) == 0 {
+				continue
+			}
+			if _, isPtr := recv.Type().Underlying().(*types.Pointer); isPtr {
+				continue
+			}
+			if _, isStruct := recv.Type().Underlying().(*types.Struct); !isStruct {
+				continue
+			}
+			// the spill of the receiver
+			var cell *ssa.Alloc
+			for _, ref := range *fn.Params[0].Referrers() {
+				if st, ok := ref.(*ssa.Store); ok && st.Val == ssa.Value(fn.Params[0]) {
+					if a, isA := st.Addr.(*ssa.Alloc); isA {
+						cell = a
+					}
+				}
+			}
+			if cell == nil {
+				continue
+			}
+			var stores []*ssa.Store
+			var reads []ssa.Instruction
+			for _, ref := range *cell.Referrers() {
+				switch x := ref.(type) {
+				case *ssa.FieldAddr:
+					for _, r2 := range *x.Referrers() {
+						if st, isSt := r2.(*ssa.Store); isSt && st.Addr == ssa.Value(x) {
+							stores = append(stores, st)
+						} else {
+							reads = append(reads, r2)
+						}
+					}
+				case *ssa.Store:
+					if x.Addr != ssa.Value(cell) {
+						reads = append(reads, x) // the address escapes
+					}
+				default:
+					reads = append(reads, ref)
+				}
+			}
+			for _, st := range stores {
+				n++
+				seen := false
+				after := ReachAfter(st, nil)
+				for _, rd := range reads {
+					if after[rd] {
+						seen = true
+					}
+				}
+				f, _ := FieldOf(st.Addr)
+				name := "?"
+				if f != nil {
+					name = f.Name()
+				}
+				c.Report(seen, id, "RECEIVER-STORE-NOT-LOST", fn, st.Pos(), "assignment to "+name+" of a by-value receiver", "an assignment to a field of the receiver is observable: the method has a pointer receiver, or the copy is read / returned afterwards (a default or option stored into a by-value copy is silently lost)")
+			}
+		}
+	}
+	c.Report(true, id, "RECEIVER-STORES-SCANNED", nil, token.NoPos, strings.Join(rels, ","), fmt.Sprintf("%d field assignments on by-value receivers examined", n))
+}
+
+// DefaultsApplied: a configuration type with a setDefaults method gets its defaults in every exported function of
+// its package that takes (or builds) a value of that type: the call is on that very value and precedes every return
+// that reports success — or the value is handed, as it is, to another function of the package that does so (one level).
+func DefaultsApplied(c *Check, id string, rels ...string) {
+	n := 0
+	for _, rel := range rels {
+		sp := c.P.Pkg(rel)
+		if sp == nil {
+			continue
+		}
+		setDef := map[*types.Named]*ssa.Function{}
+		for _, m := range sp.Members {
+			t, ok := m.(*ssa.Type)
+			if !ok {
+				continue
+			}
+			nt, ok := t.Type().(*types.Named)
+			if !ok {
+				continue
+			}
+			for i := 0; i < nt.NumMethods(); i++ {
+				if nt.Method(i).Name() == "setDefaults" || nt.Method(i).Name() == "SetDefaults" {
+					if f := c.P.SSA.FuncValue(nt.Method(i).Origin()); f != nil {
+						setDef[nt] = f
+					}
+				}
+			}
+		}
+		var applies func(fn *ssa.Function, isVar func(ssa.Value) bool, T *types.Named, depth int) bool
+		applies = func(fn *ssa.Function, isVar func(ssa.Value) bool, T *types.Named, depth int) bool {
+			var sites []ssa.Instruction
+			for _, cl := range rawCallsIn(fn) {
+				if _, isCall := cl.(*ssa.Call); !isCall {
+					continue
+				}
+				cal := CalleeFn(cl.Common())
+				if cal == nil {
+					continue
+				}
+				if cal == setDef[T] && len(cl.Common().Args) > 0 && isVar(cl.Common().Args[0]) {
+					sites = append(sites, cl)
+					continue
+				}
+				// handed on as it is to a function of the package that applies the defaults to that parameter
+				if depth < 1 && cal.Pkg == fn.Pkg && cal != fn {
+					for i, a := range cl.Common().Args {
+						if i < len(cal.Params) && isVar(a) {
+							prm := cal.Params[i]
+							if applies(cal, func(v ssa.Value) bool { return refersToParam(v, prm) }, T, depth+1) {
+								sites = append(sites, cl)
+							}
+						}
+					}
+				}
+			}
+			if len(sites) == 0 {
+				return false
+			}
+			re := rawReachEntry(fn, sites)
+			for _, r := range Returns(fn) {
+				if !re[r] {
+					continue
+				}
+				// a return reached without the defaults must report failure
+				k := len(r.Results) - 1
+				if k < 0 || !IsErrorType(r.Results[k].Type()) || RetNil(r, k) {
+					return false
+				}
+			}
+			return true
+		}
+		for _, fn := range c.P.SrcFuncsRaw(rel) {
+			if fn.Parent() != nil || fn.Object() == nil || !fn.Object().Exported() || fn.Signature.Recv() != nil {
+				continue
+			}
+			// parameters of a config type
+			for _, prm := range fn.Params {
+				T := NamedOf(prm.Type())
+				if T == nil || setDef[T] == nil {
+					continue
+				}
+				n++
+				p := prm
+				ok := applies(fn, func(v ssa.Value) bool { return refersToParam(v, p) }, T, 0)
+				c.Report(ok, id, "DEFAULTS-APPLIED", fn, fn.Pos(), "configuration parameter "+prm.Name()+" of "+fn.Name(), "the constructor fills in the configuration's defaults (on the value it goes on to use) before it can return successfully")
+			}
+			// a configuration built inside an exported constructor
+			rawInstrs(fn, func(in ssa.Instruction) {
+				al, ok := in.(*ssa.Alloc)
+				if !ok {
+					return
+				}
+				T := NamedOf(al.Type())
+				if T == nil || setDef[T] == nil {
+					return
+				}
+				for _, prm := range fn.Params {
+					if NamedOf(prm.Type()) == T {
+						return // the spill of the parameter, judged above
+					}
+				}
+				n++
+				ok = applies(fn, func(v ssa.Value) bool {
+					if u, isU := v.(*ssa.UnOp); isU && u.Op == token.MUL && u.X == ssa.Value(al) {
+						return true
+					}
+					return v == ssa.Value(al)
+				}, T, 0)
+				c.Report(ok, id, "DEFAULTS-APPLIED", fn, al.Pos(), "configuration built in "+fn.Name(), "a configuration the constructor builds itself gets its defaults before it is used")
+			})
+		}
+	}
+	c.Report(true, id, "DEFAULTS-SCANNED", nil, token.NoPos, strings.Join(rels, ","), fmt.Sprintf("%d configuration values in exported constructors examined", n))
+}
+
+// refersToParam: v is the parameter, or the address of / a load from the local it was spilled to.
+func refersToParam(v ssa.Value, prm *ssa.Parameter) bool {
+	if v == ssa.Value(prm) {
+		return true
+	}
+	var cell *ssa.Alloc
+	for _, ref := range *prm.Referrers() {
+		if st, ok := ref.(*ssa.Store); ok && st.Val == ssa.Value(prm) {
+			if a, isA := st.Addr.(*ssa.Alloc); isA {
+				cell = a
+			}
+		}
+	}
+	if cell == nil {
+		return false
+	}
+	if v == ssa.Value(cell) {
+		return true
+	}
+	if u, ok := v.(*ssa.UnOp); ok && u.Op == token.MUL && u.X == ssa.Value(cell) {
+		return true
+	}
+	return false
 }
